@@ -298,8 +298,25 @@ def replay(prop, path):
         log(obj.get("tlc_tail", ""))
         log("VIOLATION property=%s replay=%s" % (prop, path))
         return 1
-    import vprops_more
-    return vprops_more.replay(prop, path, obj)
+    if obj.get("cmd") and "behaviour" in obj:
+        # a behaviour replayed by one of the harness commands (mtree-replay, admin-replay, lock-replay, migrate-replay,
+        # btree-replay, pagesearch-replay ...): run it again on its own
+        inp = os.path.join(vcore.scratch(), "one.ndjson")
+        outp = os.path.join(vcore.scratch(), "one.res")
+        vcore.write_ndjson(inp, [obj["behaviour"]])
+        args = {"in": inp, "out": outp}
+        args.update(obj.get("args") or {})
+        vcore.pdbh(obj["cmd"], args)
+        for r in vcore.read_ndjson(outp):
+            for v in r["violations"]:
+                log("VIOLATION property=%s replay=%s" % (prop, path))
+                log("  " + v["what"][:1500])
+                return 1
+        log("replay: no violation reproduced")
+        return 0
+    # recorded runs of free-running threads, scenarios: the stored file describes the case; the check is run again
+    log("replay of a %s case: %s" % (obj.get("kind"), json.dumps({k: v for k, v in obj.items() if k not in ("trace", "behaviour", "events")})[:1500]))
+    return CHECKS[prop]("quick")
 
 
 # ---------------------------------------------------------------------------
@@ -1028,6 +1045,79 @@ def c16(tier):
 
 
 # ---------------------------------------------------------------------------
+# BTreeNode.tla: the on-disk B-tree (C04: order and depth; C14: no unreachable node), transcribed
+
+BT_TAGS = ["split_leaf_less", "split_leaf_equal", "split_leaf_greater", "split_leaf_greater_last",
+           "split_inner_less", "split_inner_equal", "split_inner_greater", "split_inner_greater_last"] + \
+          ["split_inner_child_%d" % i for i in range(9)] + \
+          ["borrow_left_leaf", "borrow_right_leaf", "borrow_left_inner", "borrow_right_inner", "borrow_right_inner_from_full",
+           "merge_leaf", "merge_leaf_last", "merge_inner", "merge_inner_last", "remove_last_rebalance",
+           "replace_by_predecessor_depth1", "replace_by_predecessor_depth2", "root_split", "root_collapse", "replace_value"]
+
+
+def _replay_lines(out):
+    behs = []
+    for line in out.splitlines():
+        if line.startswith('"REPLAY '):
+            try:
+                behs.append(json.loads(json.loads(line)[7:]))
+            except ValueError:
+                pass
+    return behs
+
+
+def btree_node_part(rep, thorough, label, light=False):
+    """Design check of BTreeNode.tla (small ORDER, exhaustive), then behaviours for ORDER = 8 replayed with the SHAPE of
+    the stored tree compared with the specification's after every operation."""
+    for cfg in ("MC_BTreeNode_o2.cfg",) if light else ("MC_BTreeNode_o2.cfg", "MC_BTreeNode_o4.cfg"):
+        res = vcore.tlc_check("BTreeNode.tla", os.path.join(vcore.SPEC, cfg), timeout=2400)
+        rep.add_model(res, cfg[:-4])
+        if not res["ok"]:
+            rep.violation("TLC: %s violated in BTreeNode.tla (%s)" % (res["violated"], cfg),
+                          {"kind": "model", "cfg": cfg, "tlc_tail": res["out"][-5000:]})
+        else:
+            log("[tlc] %s: %d distinct trees: ok" % (cfg[:-4], res["distinct"]))
+    # canonical trees x every single operation (breadth first, one behaviour per successor)
+    res = vcore.tlc_check("BTreeNode.tla", os.path.join(vcore.SPEC, "ASC_BTreeNode.cfg"), workers=1, timeout=2400)
+    rep.add_model(res, "ASC_BTreeNode")
+    canon = _replay_lines(res["out"])
+    if not res["ok"] or len(canon) < 5000:
+        raise ToolError("BTreeNode.tla: enumeration of the canonical trees failed (%d behaviours)" % len(canon))
+    # random histories (insertions, then removals) of 300 operations
+    rnd, gen, _ = vcore.tlc_simulate("BTreeNode.tla", os.path.join(vcore.SPEC, "GEN_BTreeNode.cfg"),
+                                     160 if thorough else 40, 300, SEED + 17)
+    rep.transitions += gen
+    if not thorough:
+        # every transition kept with up to 10 behaviours spread over the enumeration, plus every 25th behaviour
+        keep = set(range(0, len(canon), 25))
+        for t in BT_TAGS:
+            idx = [i for i, b in enumerate(canon) if t in b["tags"]]
+            keep.update(idx[::max(1, len(idx) // 10)][:10])
+        canon = [canon[i] for i in sorted(keep)]
+    covered = set()
+    for b in canon + rnd:
+        covered.update(b["tags"])
+    missing = [t for t in BT_TAGS if t not in covered]
+    rep.extra["btree_transitions_covered"] = sorted(covered)
+    rep.extra["btree_behaviours"] = {"canonical": len(canon), "random": len(rnd)}
+    if missing:
+        raise ToolError("BTreeNode behaviours do not take the transitions %s: vacuous" % missing)
+    # the binding is sensitive: a behaviour whose expected shape was tampered with must be reported
+    t = json.loads(json.dumps(rnd[0]))
+    for st in t["steps"][len(t["steps"]) // 2:]:
+        if st["shape"]["s"]:
+            st["shape"]["s"][0] += 1000
+    inp, outp = os.path.join(vcore.scratch(), "bt_tamper.ndjson"), os.path.join(vcore.scratch(), "bt_tamper.out")
+    vcore.write_ndjson(inp, [t])
+    vcore.pdbh("btree-replay", {"in": inp, "out": outp})
+    if not any(r["violations"] for r in vcore.read_ndjson(outp)):
+        raise ToolError("btree-replay ACCEPTED a behaviour with a changed expected shape: the binding is not sensitive")
+    for j, var in enumerate(["", "lz4", "rc"] if thorough else ([""] if light else ["", "rc"])):
+        part = (canon + rnd) if (thorough or j == 0) else (canon[::6] + rnd[::4])
+        generic_replay(rep, "btree-replay", part, {"variant": var}, "%s_bt%d" % (label, j), "btree-replay")
+
+
+# ---------------------------------------------------------------------------
 # C04: btree columns
 
 C04_COLS = [
@@ -1069,6 +1159,9 @@ def c04(tier):
         cols = [dict(C04_COLS[j % len(C04_COLS)][0])]
         record_and_validate(rep, cols, 120 if thorough else 60, 3, 2500 if thorough else 900, SEED * 271 + j,
                             crash=1, label="c04t%d" % j, small=True, cursor=45)
+    # the on-disk tree itself (BTreeNode.tla): keys in order, every leaf at the recorded depth, after any sequence of
+    # insertions and removals - the stored shape must be the specification's after every operation
+    btree_node_part(rep, thorough, "c04")
     return rep.finish()
 
 
@@ -1422,6 +1515,9 @@ def c14(tier):
         rep.extra["tree_crashes_replayed"] = rep.extra.get("tree_crashes_replayed", 0) + sum(
             1 for b in behs for e in b["steps"] if e.get("a") == "Crash")
         generic_replay(rep, "mtree-replay", behs, {"seed": SEED + 90 + j, "variant": var}, "c14m_%d" % j, "mtree-replay")
+    # btree columns (BTreeNode.tla): no unreachable node, no child lost - the stored shape is the specification's
+    # after every operation on canonical and random trees (every structural transition required to occur)
+    btree_node_part(rep, thorough, "c14", light=not thorough)
     return rep.finish()
 
 
